@@ -782,16 +782,19 @@ static int myth_handle_PTHREAD_MUTEX_INITIALIZER(pthread_mutex_t * pm) {
   myth_mutex_t * m = (myth_mutex_t *)pm;
   volatile int * magic_p = (volatile int *)&m->magic;
   int magic = * magic_p;
+  MYTH_VERIF_POINT(MVP_MINIT_A);
   if (magic != myth_mutex_magic_no) {
     if (magic != myth_mutex_magic_no_initializing
 	&& __sync_bool_compare_and_swap(magic_p, magic, myth_mutex_magic_no_initializing)) {
       myth_mutex_t mi = MYTH_MUTEX_INITIALIZER;
       mi.magic = myth_mutex_magic_no_initializing;
+      MYTH_VERIF_POINT(MVP_MINIT_B);
       *m = mi;
       myth_rwbarrier();
+      MYTH_VERIF_POINT(MVP_MINIT_C);
       *magic_p = myth_mutex_magic_no;
     } else {
-      while (*magic_p == myth_mutex_magic_no_initializing) { }
+      while (*magic_p == myth_mutex_magic_no_initializing) { MYTH_VERIF_SPIN(MVS_MINIT); }
       myth_assert(*magic_p == myth_mutex_magic_no);
     }
   }
